@@ -8,6 +8,13 @@ Line protocol for the write-inference model.
   EVAL <lv> <id=val,…|-> <expr>      → `none` | `<int>`
   WMETHOD <i> <field> ; <field> ; …  → physical | read_only | alias <x> | transform <x> <expr> | out-of-fuel
         field := P | V0 <expr> | V1 <expr>      (V1: the field has [requires])
+  VWRITE <lo> <hi> <v> <expr>        → `param=<T> check=<0|1|none> inv=<int|ub|notype|unmodelled|->
+                                         range=<lo>..<hi>|none types=<I>/<R>/<L>/<R>,…`
+        the generated write methods of a transform virtual field whose value range is
+        [lo, hi], on the candidate `v` (must be a value of the parameter type, else `bad-op`):
+        C++ parameter type, outcome of the generated range check, the inverse as the
+        generated C++ computes it (`-` when the check refuses), the inferred range of the
+        inverse, and the template arguments of every run-time node (preorder)
 -/
 import Emboss.Model.WriteInference
 import Driver.Util
@@ -117,6 +124,29 @@ def handleWInf (line : String) : Option String :=
       | none => "none"
       | some v => toString v
     | _, _, _ => "bad-op"
+  | "VWRITE" :: lo :: hi :: v :: toks =>
+    some <| match lo.toInt?, hi.toInt?, v.toInt?, parseWhole toks with
+    | some lo, some hi, some v, some body =>
+      let lv : Rng := ⟨lo, hi⟩
+      match logicalType lv with
+      | none => "param=none"
+      | some t =>
+        if !t.holds v then "bad-op" else
+        let showT : Option Emboss.CppInt.IntTy → String := fun o =>
+          match o with | some t => t.toString | none => "none"
+        let chk := rangeCheck lv t v
+        let inv := match chk with
+          | some true =>
+            (match cppEval lv v body with
+             | .ok u => toString u | .ub => "ub" | .notype => "notype" | .unmodelled => "unmodelled")
+          | _ => "-"
+        let rng := match rangeOf lv body with
+          | some r => s!"{r.lo}..{r.hi}" | none => "none"
+        let tys := ",".intercalate ((cppTypes lv body).map fun (a, b, c, d) =>
+          s!"{showT a}/{showT b}/{showT c}/{showT d}")
+        let chkS := match chk with | some true => "1" | some false => "0" | none => "none"
+        s!"param={t.toString} check={chkS} inv={inv} range={rng} types={if tys == "" then "-" else tys}"
+    | _, _, _, _ => "bad-op"
   | "WMETHOD" :: i :: toks =>
     some <| match i.toNat?, (splitOnTok ";" toks).mapM parseField with
     | some i, some fields =>
